@@ -82,7 +82,7 @@ def tricky_expr(r):
     if k < 0.72:
         return "%s / *%s" % (a, r.choice(progs.IDENT))
     if k < 0.8:
-        return "sizeof %s + %s .5 - 1. + 1 .e" % (a, b) if r.random() < 0.3 else "%s<%s<%s> >(%s)" % (a, a, b if b[0].isalpha() else "int", b)
+        return r.choice(["sizeof %s + %s .5 - 1. + 1 .e" % (a, b), "0xe + 1 - 1.e + 3 + 0x1p - 2 + 1e1 + %s" % a]) if r.random() < 0.4 else "%s<%s<%s> >(%s)" % (a, a, b if b[0].isalpha() else "int", b)
     if k < 0.9:
         return "%s %s %s" % (a, r.choice(["->*", ".*", "::", "< ::", "<:", "% :", ". .", "- >", "| |", "& &", "< <", "> >", "= =", "! =", "+ =", "- > *", "< ="]), r.choice(progs.IDENT))
     return "%s(%s, %s)[%s]" % (a, b, r.choice(["-1", "+b", "*p", "&q"]), r.choice(["0", "i++", "--j"]))
@@ -97,7 +97,10 @@ LITERALS = ["\"plain\"", "\"esc \\\" q\"", "\"tab\\there\"", "\"real\ttab\"", "'
 
 def literal_program(r, n=12, cpp=True):
     """statements with literals of every form, comments at many positions"""
-    out = ["#include <std io.h>", "#include \"my  file.h\"", "#define STR \"in  macro\" /* c */", ""]
+    out = ["#include <std io.h>", "#include \"my  file.h\"", "#define STR \"in  macro\" /* c */",
+           # block comments that span continuation lines of a directive: text right up to the backslash, a blank before it, a star line
+           "#define ONCE(a) /* evaluate the argument once\\\n   and only once */ (a)",
+           "#define TWICE(a) do { /* first \\\n * second\\\n */ a; a; } while (0)", ""]
     out.append("int f(int a) {")
     for i in range(n):
         lit = r.choice(LITERALS if cpp else [x for x in LITERALS if not re.match(r"^(u8|u|U|L)?R\"", x)])
